@@ -611,6 +611,14 @@ func genCCFBRaw(r *rand.Rand, i int) []byte {
 	return govcMutate(r, raw)
 }
 
+// govcCount: mostly a handful, sometimes anything up to the 5-bit count field's maximum.
+func govcCount(r *rand.Rand, min int) int {
+	if r.Intn(6) == 0 {
+		return min + r.Intn(32-min)
+	}
+	return min + r.Intn(4)
+}
+
 func govcRR(r *rand.Rand) ReceptionReport {
 	return ReceptionReport{SSRC: govcU32(r), FractionLost: govcU8(r), TotalLost: govcU32(r) & 0xFFFFFF, LastSequenceNumber: govcU32(r),
 		Jitter: govcU32(r), LastSenderReport: govcU32(r), Delay: govcU32(r)}
@@ -646,7 +654,7 @@ func govcPacket(r *rand.Rand, k int) Packet {
 	switch k {
 	case 0:
 		p := &SenderReport{SSRC: govcU32(r), NTPTime: uint64(govcU32(r))<<32 | uint64(govcU32(r)), RTPTime: govcU32(r), PacketCount: govcU32(r), OctetCount: govcU32(r)}
-		for n := r.Intn(4); n > 0; n-- {
+		for n := govcCount(r, 0); n > 0; n-- {
 			p.Reports = append(p.Reports, govcRR(r))
 		}
 		if r.Intn(3) == 0 {
@@ -656,7 +664,7 @@ func govcPacket(r *rand.Rand, k int) Packet {
 		return p
 	case 1:
 		p := &ReceiverReport{SSRC: govcU32(r)}
-		for n := r.Intn(4); n > 0; n-- {
+		for n := govcCount(r, 0); n > 0; n-- {
 			p.Reports = append(p.Reports, govcRR(r))
 		}
 		if r.Intn(3) == 0 {
@@ -669,7 +677,7 @@ func govcPacket(r *rand.Rand, k int) Packet {
 		return &p
 	case 3:
 		p := &Goodbye{Reason: govcText(r)}
-		for n := r.Intn(4); n > 0; n-- {
+		for n := govcCount(r, 0); n > 0; n-- {
 			p.Sources = append(p.Sources, govcU32(r))
 		}
 		return p
@@ -679,7 +687,7 @@ func govcPacket(r *rand.Rand, k int) Packet {
 		return &ApplicationDefined{SubType: uint8(r.Intn(32)), SSRC: govcU32(r), Name: string([]byte{byte(32 + r.Intn(90)), byte(32 + r.Intn(90)), byte(32 + r.Intn(90)), byte(32 + r.Intn(90))}), Data: d}
 	case 5:
 		p := &TransportLayerNack{SenderSSRC: govcU32(r), MediaSSRC: govcU32(r)}
-		for n := 1 + r.Intn(3); n > 0; n-- {
+		for n := govcCount(r, 1); n > 0; n-- {
 			p.Nacks = append(p.Nacks, NackPair{PacketID: govcU16(r), LostPackets: PacketBitmap(govcU16(r))})
 		}
 		return p
@@ -689,20 +697,20 @@ func govcPacket(r *rand.Rand, k int) Packet {
 		return &PictureLossIndication{SenderSSRC: govcU32(r), MediaSSRC: govcU32(r)}
 	case 8:
 		p := &SliceLossIndication{SenderSSRC: govcU32(r), MediaSSRC: govcU32(r)}
-		for n := 1 + r.Intn(3); n > 0; n-- {
+		for n := govcCount(r, 1); n > 0; n-- {
 			p.SLI = append(p.SLI, SLIEntry{First: govcU16(r) & 0x1FFF, Number: govcU16(r) & 0x1FFF, Picture: govcU8(r) & 0x3F})
 		}
 		return p
 	case 9:
 		p := &FullIntraRequest{SenderSSRC: govcU32(r), MediaSSRC: govcU32(r)}
-		for n := 1 + r.Intn(3); n > 0; n-- {
+		for n := govcCount(r, 1); n > 0; n-- {
 			p.FIR = append(p.FIR, FIREntry{SSRC: govcU32(r), SequenceNumber: govcU8(r)})
 		}
 		return p
 	case 10:
 		// bitrates below 1 bit/s have mantissa 0 on the wire: the recorded REMB finding (C14, C04), kept out of the list lemmas
 		p := &ReceiverEstimatedMaximumBitrate{SenderSSRC: govcU32(r), Bitrate: 1 + float32(r.Int63n(1<<40))*float32(r.Intn(5))}
-		for n := r.Intn(4); n > 0; n-- {
+		for n := govcCount(r, 0); n > 0; n-- {
 			p.SSRCs = append(p.SSRCs, govcU32(r))
 		}
 		return p
